@@ -35,8 +35,11 @@ PID = "C20"
 PC = ["plain", "default", "kwonly", "star"]
 FL = ["plain", "method", "static", "decorated", "async", "nested"]
 VC = ["assign", "tuple", "multi", "reassign", "infunc"]
+VCX = VC + ["decl", "localann"]       # + contexts that carry an annotation of the author's
+EX_T = ["T"]
+EX_AN = ["Any", "Never", "QAny"]      # the author wrote a bare Any / Never / typing.Any himself
 RULE_INVS = ("TypeOK", "PassesOnlyRemove", "StepwiseEqualsRuleTable", "KeptInv", "FromStubInv",
-             "NoBareAnyNeverInv", "NoStrayInv", "AllOrNothingInv")
+             "NoBareAnyNeverInv", "NoStrayInv", "AllOrNothingInv", "AuthorAnyNeverStaysInv")
 CODED_INVS = ("TypeOK", "PassesOnlyRemove", "StepwiseEqualsRuleTable", "KeptInv", "FromStubInv",
               "AllOrNothingInv")
 TRACE_CFG = "INIT TInit\nNEXT TNext\nINVARIANT Ok\nPOSTCONDITION Done\n"
@@ -53,25 +56,41 @@ KEYS = {
 }
 
 
-def cfg(ms, mp, mv, pctx, fls, vctx, rich2, coded, mode, invs):
+def cfg(ms, mp, mv, pctx, fls, vctx, rich2, exs, coded, mode, invs, filter_merged=False):
   def s(xs):
     return "{" + ", ".join('"%s"' % x for x in xs) + "}"
   return ("SPECIFICATION Spec\nCONSTANTS MaxSlots = %d\n MaxParams = %d\n MaxVars = %d\n PCtx = %s\n"
-          " Fls = %s\n VCtx = %s\n Rich2 = %s\n AsCoded = %s\n Mode = \"%s\"\n"
-          % (ms, mp, mv, s(pctx), s(fls), s(vctx), "TRUE" if rich2 else "FALSE",
-             "TRUE" if coded else "FALSE", mode)
+          " Fls = %s\n VCtx = %s\n Rich2 = %s\n Exs = %s\n AsCoded = %s\n FilterMerged = %s\n Mode = \"%s\"\n"
+          % (ms, mp, mv, s(pctx), s(fls), s(vctx), "TRUE" if rich2 else "FALSE", s(exs),
+             "TRUE" if coded else "FALSE", "TRUE" if filter_merged else "FALSE", mode)
           + "".join("INVARIANT %s\n" % i for i in invs))
 
 
 def fam_args(name):
   return {
-      "func": (3, 2, 0, PC, FL, VC, False),          # one function, <= 2 parameters + return
-      "funcrich": (3, 2, 0, PC, FL, VC, True),       # two parameters vary context / flavour too
-      "vars1": (1, 0, 1, PC, [], VC, False),
-      "vars2": (2, 0, 2, PC, [], VC, False),         # <= 2 module / class variables
-      "vars3": (3, 0, 3, PC, [], VC, False),
-      "mixed": (3, 1, 1, ["plain"], ["plain", "method"], VC, False),   # function + one variable
+      "func": (3, 2, 0, PC, FL, VC, False, EX_T),          # one function, <= 2 parameters + return
+      "funcrich": (3, 2, 0, PC, FL, VC, True, EX_T),       # two parameters vary context / flavour too
+      "vars1": (1, 0, 1, PC, [], VC, False, EX_T),
+      "vars2": (2, 0, 2, PC, [], VC, False, EX_T),         # <= 2 module / class variables
+      "vars3": (3, 0, 3, PC, [], VC, False, EX_T),
+      "mixed": (3, 1, 1, ["plain"], ["plain", "method"], VC, False, EX_T),   # function + one variable
+      # existing annotations that are themselves Any / Never / typing.Any:
+      # one function (<= 1 parameter + return), four flavours
+      "funcx": (2, 1, 0, PC, ["plain", "method", "nested", "async"], [], False, EX_AN),
+      # <= 2 module / class variables: v = e, v: X = e, v: X (value-less), annotated local
+      "varsx": (2, 0, 2, PC, [], ["assign", "decl", "localann"], False, EX_AN),
+      "vars1x": (1, 0, 1, PC, [], ["assign", "decl", "localann"], False, EX_AN),
+      # thorough: all flavours / all contexts, T next to Any / Never; function + variable
+      "funcxfull": (2, 1, 0, PC, FL, [], False, EX_T + EX_AN),
+      "varsxfull": (2, 0, 2, PC, [], VCX, False, EX_T + EX_AN),
+      "mixedx": (3, 1, 1, ["plain"], ["plain", "method"], ["assign", "decl"], False, ["Any", "Never"]),
   }[name]
+
+
+XFAMS = ("funcx", "varsx", "funcxfull", "varsxfull", "mixedx")
+
+
+BARE_ANY_NEVER = ("typing.Any", "typing.Never", "typing_extensions.Never", "Any", "Never")
 
 
 def canon(t):
@@ -197,10 +216,21 @@ def stats(run, recs, prefix):
       run.add(prefix + "_pairs_forward_ref_quoted")
     for s in ins:
       run.add(prefix + "_inserted_" + s["k"])
+    bare = [s for s in c["orig"] if s["k"] != "param" and s["u"] in BARE_ANY_NEVER]
+    if bare:
+      run.add(prefix + "_pairs_existing_any_never")
+    for s in bare:
+      run.add(prefix + "_existing_any_never_" + s["k"])
+      if any(o["id"] == s["id"] and o["a"] == s["a"] for o in c["out"]):
+        run.add(prefix + "_existing_any_never_kept")
     if c.get("fam") == "table":
       for k, s in enumerate(c["t"]["slots"]):
         q = c["names"][k]
         got = any(o["q"] == q for o in c["out"])
+        if s["ex"] in EX_AN:
+          tag = s["kind"] if s["kind"] in ("param", "ret") else {"decl": "decl", "localann": "local"}.get(s["ctx"], "var")
+          run.add("exann_" + tag)
+          run.add("exann_is_" + s["ex"])
         if s["st"] in ("Any", "Never") and s["kind"] == "ret" and s["ex"] == "none" and not got:
           run.add("ret_any_never_filtered")
         if s["st"] in ("triv", "Lit") and not got:
@@ -265,9 +295,20 @@ def main():
   # ---- 1. TLC: the design (rule table; as coded), export of every table, program generator
   check_fams = ["func", "vars2"] + (["funcrich", "vars3", "mixed"] if thorough else [])
   export_fams = ["func", "vars2"] + (["funcrich", "vars3", "mixed"] if thorough else [])
+  # families with existing Any / Never annotations: one TLC run checks the rule table and exports
+  both_fams = ["funcx", "varsx"] + (["funcxfull", "varsxfull", "mixedx"] if thorough else [])
   jobs = {}
   t0 = time.time()
-  with cf.ThreadPoolExecutor(max_workers=6) as ex:
+  with cf.ThreadPoolExecutor(max_workers=8) as ex:
+    for fam in both_fams:
+      jobs["both", fam] = ex.submit(tlc.run, "MergePyi",
+                                    cfg(*fam_args(fam), False, "both", RULE_INVS + ("ExportInv",)),
+                                    workers=1, timeout=3000, seed=run.seed, heap="6g")
+    jobs["witness", "KeptInv"] = ex.submit(
+        tlc.run, "MergePyi", cfg(*fam_args("vars1x"), False, "check", ("KeptInv",), filter_merged=True),
+        workers=1, timeout=3000, seed=run.seed)
+    jobs["coded", "vars1x"] = ex.submit(tlc.run, "MergePyi", cfg(*fam_args("vars1x"), True, "check", CODED_INVS),
+                                        workers=1, timeout=3000, seed=run.seed)
     for fam in check_fams:
       jobs["rule", fam] = ex.submit(tlc.run, "MergePyi", cfg(*fam_args(fam), False, "check", RULE_INVS),
                                     workers=4 if thorough else 2, timeout=3000, seed=run.seed)
@@ -292,11 +333,23 @@ def main():
     states += r.distinct
     trans += r.generated
     run.put("model_states_" + fam, r.distinct)
-  r = jobs["coded", "vars2"].result()
-  if r.violated or not r.ok:
-    raise common.Machinery("MergePyi.tla (as coded) violates %s:\n%s" % (r.violated, (r.error_trace or r.out)[-3000:]))
-  states += r.distinct
-  trans += r.generated
+  for fam in both_fams:
+    r = jobs["both", fam].result()
+    if r.violated or not r.ok:
+      raise common.Machinery("MergePyi.tla (rule table, %s) violates %s:\n%s" % (fam, r.violated, (r.error_trace or r.out)[-3000:]))
+    states += r.distinct
+    trans += r.generated
+    run.put("model_states_" + fam, r.distinct)
+  for fam in ("vars2", "vars1x"):
+    r = jobs["coded", fam].result()
+    if r.violated or not r.ok:
+      raise common.Machinery("MergePyi.tla (as coded, %s) violates %s:\n%s" % (fam, r.violated, (r.error_trace or r.out)[-3000:]))
+    states += r.distinct
+    trans += r.generated
+  r = jobs["witness", "KeptInv"].result()
+  common.require(r.violated == "KeptInv", "filtering the merged source (FilterMerged) does not violate KeptInv in the model")
+  run.put("design_witness_FilterMerged", "running the Any / Never filter over the merged source violates KeptInv "
+          "(expected; the filter belongs on the stub only)")
   for inv in ("NoBareAnyNeverInv", "NoStrayInv"):
     r = jobs["witness", inv].result()
     common.require(r.violated == inv, "the as-coded model does not witness the known deviation %s" % inv)
@@ -305,15 +358,16 @@ def main():
   run.put("transitions", trans)
   tables = {}
   by_fam = {}
-  for fam in list(export_fams) + ([] if thorough else ["mixed-sim"]):
-    r = jobs["export", fam].result()
+  for fam in list(export_fams) + both_fams + ([] if thorough else ["mixed-sim"]):
+    r = jobs["both" if fam in both_fams else "export", fam].result()
     n0 = len(tables)
     for t in r.cases:
       if canon(t) not in tables:
         tables[canon(t)] = t
         by_fam.setdefault(fam, []).append(t)
     run.put("tables_" + fam, len(tables) - n0)
-  common.require(len(by_fam.get("func", [])) == 2950 and len(by_fam.get("vars2", [])) == 2444,
+  common.require(len(by_fam.get("func", [])) == 2950 and len(by_fam.get("vars2", [])) == 2617
+                 and len(by_fam.get("funcx", [])) == 6075 and len(by_fam.get("varsx", [])) == 5700,
                  "table export changed: %s" % {k: len(v) for k, v in by_fam.items()})
   run.put("tables_exported", len(tables))
   run.add("tlc_model_wall_s", round(time.time() - t0, 1))
@@ -326,9 +380,10 @@ def main():
     rng.shuffle(rest)
     return small + rest[:max(0, n - len(small))]
   if thorough:
-    plan = {"func": 10**9, "vars2": 10**9, "funcrich": 14000, "vars3": 7000, "mixed": 4000}
+    plan = {"func": 10**9, "vars2": 10**9, "funcrich": 14000, "vars3": 7000, "mixed": 4000,
+            "funcx": 10**9, "varsx": 10**9, "funcxfull": 3000, "varsxfull": 3000, "mixedx": 1500}
   else:
-    plan = {"func": 750, "vars2": 550, "mixed-sim": 170}
+    plan = {"func": 750, "vars2": 550, "mixed-sim": 170, "funcx": 260, "varsx": 300}
   chosen = []
   for fam, n in plan.items():
     sel = pick(by_fam.get(fam, []), n)
@@ -336,8 +391,9 @@ def main():
     chosen += [(t, 0, False) for t in sel]
   run.put("exhaustive", bool(thorough))
   run.put("explanation", "TLC enumerates every slot table within the bounds in both tiers (model level); on the "
-          "real code the thorough tier replays all tables of the families func and vars2 and seeded samples of "
-          "funcrich / vars3 / mixed, the quick tier all one-slot tables and seeded samples of the rest")
+          "real code the thorough tier replays all tables of the families func, vars2, funcx, varsx and seeded "
+          "samples of funcrich / vars3 / mixed / funcxfull / varsxfull / mixedx, the quick tier all one-slot tables "
+          "and seeded samples of the rest")
   # the same small tables with the stub spelling Any / Never as typing.Any / typing.Never
   qual = [t for t, _, _ in chosen if len(t["slots"]) <= 2 and any(
       s["st"] in ("Any", "Never") and s["kind"] != "param" for s in t["slots"])]
@@ -383,6 +439,17 @@ def main():
                  and cov.get("table_pairs_forward_ref_quoted", 0) > 5
                  and all(cov.get("table_inserted_" + k, 0) > 50 for k in ("param", "ret", "var", "decl")),
                  "vacuity (tables): %s" % {k: v for k, v in cov.items() if k.startswith(("table_", "ret_", "var_"))})
+  # the author's own Any / Never annotations (tables of the x families; hand-written programs)
+  common.require(cov.get("exann_ret", 0) >= 100 and cov.get("exann_var", 0) >= 60 and cov.get("exann_decl", 0) >= 60
+                 and cov.get("exann_local", 0) >= 15 and cov.get("exann_param", 0) >= 40
+                 and all(cov.get("exann_is_" + e, 0) >= 60 for e in EX_AN)
+                 and all(cov.get("table_existing_any_never_" + k, 0) >= 60 for k in ("ret", "var", "decl")),
+                 "vacuity (existing Any / Never annotations, tables): %s"
+                 % {k: v for k, v in cov.items() if k.startswith(("exann_", "table_existing"))})
+  common.require(cov.get("inferred_pairs_existing_any_never", 0) >= 12
+                 and all(cov.get("inferred_existing_any_never_" + k, 0) >= 8 for k in ("ret", "var", "decl")),
+                 "vacuity (existing Any / Never annotations, programs): %s"
+                 % {k: v for k, v in cov.items() if k.startswith("inferred_existing") or k.startswith("inferred_pairs_ex")})
   common.require(cov.get("inferred_pairs", 0) >= (1000 if thorough else 120)
                  and cov.get("inferred_pairs_changed", 0) >= cov["inferred_pairs"] // 3
                  and cov.get("inferred_annotations_inserted", 0) > 300,
@@ -392,6 +459,9 @@ def main():
       "variables; concrete types drawn per table from a pool (builtins, typing generics, a class of the module "
       "defined before or after its use, a TypeVar, a dotted name); the model is checked on every table, the real "
       "code on every table with one slot plus a seeded sample of the others in the quick tier",
+      "existing annotations: T, and (families funcx / varsx; thorough also funcxfull / varsxfull / mixedx) the "
+      "author's own bare Any / Never / typing.Any on a parameter, a return, `v: X = e`, a value-less `v: X` at "
+      "module level or in a class body, and an annotated local; one function with <= 1 parameter or <= 2 variables",
       "second family: the stub is whatever the real pytype infers (fixture typeshed); programs pytype does not "
       "analyse are skipped (C15's matter)",
       "annotation equality is textual after resolving names through each document's imports and unquoting "
